@@ -284,7 +284,15 @@ pub fn run(cfg: &Cfg) -> Report {
     stats.merge(body_stats);
     // scaling families: long token sequences, every gap taking its own separator from the full menu
     {
-        let cycle: Vec<&'static str> = vec!["a", "+", "1", "*", "(", "b2", "-", "2.5", ")", ",", "\"/*\"", ";", "!", "true", "&&", "a", "<=", "1", "^", "-", "1"];
+        let cycle: Vec<&'static str> = vec![
+            "a", "+", "1", "*", "(", "b2", "-", "2.5", ")", ",", "\"/*\"", ";", "!", "true", "&&", "a", "<=", "1", "^", "-", "1", "&&=", "1e-3", "||=", "b2", "!=", "2e+2",
+        ];
+        // separators of growing length: long block and line comments, long whitespace runs
+        let long_seps: Vec<String> = super::scale::sizes(cfg.tier == Tier::Thorough)
+            .into_iter()
+            .filter(|n| *n >= 8)
+            .flat_map(|n| vec![format!("//{}\n", "c".repeat(n)), format!("/*{}*/", "é*".repeat(n / 2)), " ".repeat(n), format!("/*{}*/", "x ".repeat(n))])
+            .collect();
         let mut st = Stats::new();
         for n in super::scale::sizes(cfg.tier == Tier::Thorough) {
             for off in [0usize, 5, 11] {
@@ -302,6 +310,23 @@ pub fn run(cfg: &Cfg) -> Report {
                 for shift in 0..full.len() {
                     let seps: Vec<&str> = (0..=n).map(|g| full[(g * 7 + shift) % full.len()].as_str()).collect();
                     compare(&b, &seps, &mut st);
+                }
+                // a long separator in one gap at a time (first, middle, last inner gap), single spaces elsewhere
+                if n >= 2 {
+                    for ls in &long_seps {
+                        for g in [1, n / 2, n - 1] {
+                            let seps: Vec<&str> = (0..=n).map(|k| if k == g { ls.as_str() } else if k == 0 || k == n { "" } else { " " }).collect();
+                            compare(&b, &seps, &mut st);
+                        }
+                    }
+                }
+                // leading whitespace runs of every length up to 130: shifts every later token's position
+                if n >= 4 && n <= 12 {
+                    for lead in 0..=130usize {
+                        let pad = " ".repeat(lead);
+                        let seps: Vec<&str> = (0..=n).map(|k| if k == 0 { pad.as_str() } else if k == n { "" } else { " " }).collect();
+                        compare(&b, &seps, &mut st);
+                    }
                 }
                 st.count("scaling-family-sequences");
             }
